@@ -314,6 +314,15 @@ def body_transform(case, ctx):
         ctx.close(np.asarray(im.native), want_img_native, "image_from/native", atol=1e-9 * s_vis,
                   what="image_from(V).native vs Re(A^H V) placed on the mask (%s)" % path)
         ctx.check(np.array_equal(np.asarray(im.mask), m), "image_from/mask", "image_from result carries a different mask")
+        # the same complex values in other memory representations (byte order as read from FITS, a strided view)
+        kbig = np.zeros(2 * len(vis), dtype=complex); kbig[::2] = vis
+        for rname, vrep in (("big-endian", vis.astype(">c16")), ("strided-view", kbig[::2]), ("little-endian-explicit", vis.astype("<c16"))):
+            vo = aa.Visibilities(visibilities=vrep)
+            ctx.close(np.asarray(vo.in_array, dtype=float), np.stack([vis.real, vis.imag], axis=-1), "visibilities/in_array/representation", atol=0.0,
+                      what="Visibilities(%s complex array).in_array vs (real, imag) columns" % rname)
+            imr = t.image_from(visibilities=vo, **({} if flag is None else {"use_adjoint_scaling": bool(flag)}))
+            ctx.close(np.asarray(imr.slim), want_img, "image_from/representation", atol=1e-9 * s_vis,
+                      what="image_from(%s visibilities).slim vs Re(A^H V) (%s)" % (rname, path))
         # dot-product test, no reference operator involved: Re<A I, V> == <I, Re(A^H V)>
         lhs = float(np.real(np.vdot(vis, v)))
         rhs = float(np.dot(img, np.asarray(im.slim, dtype=float))) if np.asarray(im.slim).shape == img.shape else np.nan
